@@ -614,33 +614,52 @@ func (pr *pqRunner) oracleC12(base pqCase, expr string, nodes []promParser.Node,
 		if k == 0 || len(srcs) == 0 {
 			continue
 		}
-		allFlagged := true
+		// Branches are grouped by branchKey (position of the sub-expression they describe + their label sets): the copies
+		// parseBinOps makes of the vector side (one per branch of a scalar operand) describe the same series, so a verdict
+		// on one copy is a verdict on that sub-expression.  canJoin reads nothing but the label sets, hence branches with
+		// equal keys get the same verdict unless the label bookkeeping is corrupted (e.g. an empty name left behind).
 		anyFlagged := false
 		jclass := ""
+		manyGroups := map[string]bool{}
 		for _, s := range srcs {
 			own := s.Joins
 			if b.Op == promParser.LUNLESS {
 				own = s.Unless
 			}
+			if _, ok := manyGroups[branchKey(s)]; !ok {
+				manyGroups[branchKey(s)] = false
+			}
 			if len(own) < k {
-				allFlagged = false
 				continue
 			}
+			otherGroups := map[string]bool{}
 			for _, j := range own[len(own)-k:] {
+				if _, ok := otherGroups[branchKey(j.Src)]; !ok {
+					otherGroups[branchKey(j.Src)] = false
+				}
 				if !j.Src.IsDead {
-					allFlagged = false
 					continue
 				}
+				// dead without a label: dead for another reason (inherited from below), not a verdict of this node
 				if l, ok := deadLabel(j.Src); ok {
 					anyFlagged = true
+					otherGroups[branchKey(j.Src)] = true
 					if c := joinClass(b, many, l); c != "" {
 						jclass = c
 					}
-				} else {
-					// dead for another reason (inherited from below): not a verdict of this node
-					allFlagged = false
 				}
 			}
+			srcFlagged := true
+			for _, f := range otherGroups {
+				srcFlagged = srcFlagged && f
+			}
+			if srcFlagged {
+				manyGroups[branchKey(s)] = true
+			}
+		}
+		allFlagged := true
+		for _, f := range manyGroups {
+			allFlagged = allFlagged && f
 		}
 		if anyFlagged && !allFlagged {
 			pr.rep.hist("c12:join-partially-flagged(unattributed)")
@@ -669,6 +688,25 @@ func (pr *pqRunner) oracleC12(base pqCase, expr string, nodes []promParser.Node,
 				n.String(), len(res.Series)), c, known)
 		}
 	}
+}
+
+// branchKey identifies a result branch for the attribution of join verdicts: position, FixedLabels and the three label
+// lists as sets of real (non-empty) names.
+func branchKey(s utils.Source) string {
+	norm := func(xs []string) []string {
+		seen := map[string]bool{}
+		out := []string{}
+		for _, x := range xs {
+			if x != "" && !seen[x] {
+				seen[x] = true
+				out = append(out, x)
+			}
+		}
+		sort.Strings(out)
+		return out
+	}
+	return fmt.Sprintf("%d-%d|%v|%q|%q|%q", s.Position.Start, s.Position.End, s.FixedLabels,
+		norm(s.IncludedLabels), norm(s.ExcludedLabels), norm(s.GuaranteedLabels))
 }
 
 // k3Mechanism: one of the mechanisms of known finding K3 can explain why the analyser believes the driving side
